@@ -133,7 +133,10 @@ func c09filter(c *Ctx, fn *ssa.Function, dataType string) {
 		return
 	}
 	// the allow map is filled from every element of the filter field
-	fromFilter := flow.Strict.Any(mset.Key, func(v ssa.Value) bool { _, p, _ := flow.AccessPathC(v); return strings.HasSuffix(p, "filter[]") || p == "filter" })
+	fromFilter := flow.Strict.Any(mset.Key, func(v ssa.Value) bool {
+		_, p, _ := flow.AccessPathC(v)
+		return strings.HasSuffix(p, "filter[]") || p == "filter"
+	})
 	if !fromFilter {
 		fromFilter = isFilter(mset.Key)
 	}
